@@ -88,6 +88,7 @@ THEOREMS = [
     "Typedpy.C18.deep_phase_one_sound",
     "Typedpy.C18.deserInvalid_nil_ctorOnly",
     "Typedpy.C18.two_phase_deep_example",
+    "Typedpy.C18.fixed_nested_structure_examples",
 ]
 RULE = ("flat classes (1..5 fields: Integer/Number/Float incl. sign variants, String, Boolean, Enum, and Array/Deque/"
         "Set/Tuple/Map over them) from the type-directed declaration generator; per class a valid argument set, then "
